@@ -24,7 +24,7 @@ for r in range(rounds):
                     continue
                 tot[(fam, v["p"], v["c"])] += 1
                 print("ALARM seed=%d family=%s %s %s scenario=%s event=%s" % (seed, fam, v["p"], v["c"], v["scn"], v["seq"]), flush=True)
-                keep = os.path.join(verif.WORK, "soak-alarms", "%s-%d" % (fam, seed))
+                keep = os.path.join("/verif/work/soak-alarms", "%s-%d" % (fam, seed))
                 if not os.path.exists(keep):
                     os.makedirs(os.path.dirname(keep), exist_ok=True)
                     shutil.copytree(d, keep)
